@@ -6,6 +6,7 @@ from vp import contracts
 from vp import gen
 from vp import observe
 from vp import sigs
+from vp import workloads
 from vp.models import ec as mec
 
 ID = 'C02'
@@ -159,6 +160,56 @@ def run_keys(ctx, spec):
                           '%s: recorded %r for private key %x: relation does '
                           'not hold for a point of the batch' % (curve, rel, d),
                           {'curve': curve, 'd': d, 'dd': dd})
+    # the same key objects through the whole EC registry: keys that are weak
+    # *and* close to each other carry two kinds of evidence side by side
+    if ctx.want('both-evidence'):
+      from paranoid_crypto.lib import paranoid
+      workloads.install_small_maxdiff(2 ** 8)
+      w = rng.bits(31) | 1
+      dd = [w, w + 77, (rng.bits(32) | 1) << 16, rng.below(n - 1) + 1,
+            rng.below(n - 1) + 1]
+      dd.append(dd[3] + 5)
+      keys = [gen.ec_key_from_priv(curve, d) for d in dd]
+      pts = {(int.from_bytes(k.ec_info.x, 'big'),
+              int.from_bytes(k.ec_info.y, 'big')) for k in keys}
+      paranoid.CheckAllEC(keys)
+      for d, key in zip(dd, keys):
+        ctx.count('evaluations')
+        info = gen.attached(key.test_info)
+        pub = (int.from_bytes(key.ec_info.x, 'big'),
+               int.from_bytes(key.ec_info.y, 'big'))
+        ents = gen.entries(key.test_info)
+        if len(info) >= 2:
+          ctx.count('keys_with_two_kinds_of_evidence')
+        v = info.get('DISCRETE_LOG')
+        if v is not None:
+          ctx.count('key_logs_recorded')
+          try:
+            ok = _verify_log(ctx, curve, int(v, 16), pub)
+          except ValueError:
+            ok = False
+          if not ok:
+            ctx.violation('false-discrete-log@CheckAllEC',
+                          '%s: recorded DISCRETE_LOG %r for private key %x' % (
+                              curve, v[:80], d), {'curve': curve, 'd': d})
+        rel = info.get('DISCRETE_LOG_DIFF')
+        if rel is not None:
+          ctx.count('relations_recorded')
+          parsed = observe.parse_diff(rel)
+          ok = parsed is not None
+          if ok:
+            x, y, kk = parsed
+            ok = (x, y) in pts and mc.sub(mc.mulg(d), (x, y)) == mc.mulg(kk % n)
+          if not ok:
+            ctx.violation('false-key-relation@CheckAllEC', '%s: recorded %r '
+                          'for private key %x' % (curve, rel[:80], d),
+                          {'curve': curve, 'd': d})
+        for name, kind in (('CheckWeakECPrivateKey', 'DISCRETE_LOG'),
+                           ('CheckECKeySmallDifference', 'DISCRETE_LOG_DIFF')):
+          if (ents.get(name) or (False,))[0] and kind not in info:
+            ctx.violation('weak-key-entry-without-evidence@%s' % name,
+                          '%s flagged private key %x but no %s is recorded' % (
+                              name, d, kind), {'curve': curve, 'd': d})
     try:
       ctx.sample({'curve': curve, 'private_keys': ds[:4]})
     except NameError:
@@ -351,7 +402,7 @@ def finalize(agg, tier):
   need = ['contract:BatchDL', 'contract:ExtendedBatchDL', 'key_logs_recorded',
           'relations_recorded', 'lattice_guesses_observed', 'guesses_accepted',
           'sig_logs_recorded', 'logs_verified', 'contract:_IssuerDLogs',
-          'negated_key_pairs']
+          'negated_key_pairs', 'keys_with_two_kinds_of_evidence']
   inc = ['reach counter %s is zero' % k for k in need if not c.get(k)]
   if 0 < c.get('lattice_guesses_observed', 0) < 500:
     inc.append('only %d lattice guesses observed' %
